@@ -37,8 +37,10 @@ QR_BIND = {"n": "->n", "no": "->no", "r_deep": "->deep", "f_deep": "->deep", "qr
 EC_BIND = {"n": "->f->n", "f_deep": "->f->deep", "ec_d": "->d", "ec_deep": "->deep", "no": "->f->no"}
 
 
-def _wofo(x, w): return ("bin", "/", ("bin", "+", x, lit(w - 1)), lit(w))
-def _wofb(x, w): return ("bin", "/", ("bin", "+", x, lit(8 * w - 1)), lit(8 * w))
+# spelled exactly as the macros W_OF_O / W_OF_B / O_OF_B expand (so that the terms coincide syntactically
+# with the regenerated definitions; the tactic also normalises x + k - 1)
+def _wofo(x, w): return ("bin", "/", ("bin", "-", ("bin", "+", x, lit(w)), lit(1)), lit(w))
+def _wofb(x, w): return ("bin", "/", ("bin", "-", ("bin", "+", x, lit(8 * w)), lit(1)), lit(8 * w))
 def _oofb(x): return ("bin", "/", ("bin", "+", x, lit(7)), lit(8))
 def _v(n): return ("var", n)
 def _c(f, *a): return ("call", f, list(a))
@@ -553,7 +555,7 @@ class UseFn:
                             raise Unhandled("installed function %s unknown" % inst[1])
                         self.events.append((pe[0], pe[1], ("direct", g.key), self.call_args(g, args), None))
                     else:
-                        self.events.append((pe[0], pe[1], ("member", basep, p), [], None))
+                        self.events.append((pe[0], pe[1], ("member", basep, p, self.cur(basep + "->deep")), [], None))
             return
         if callee["kind"] == "DeclRefExpr":      # call through a function-pointer variable
             for a in args:
@@ -651,9 +653,14 @@ class UseFn:
             qt = g.params[i][2] if i < len(g.params) else "size_t"
             if "*" in qt or "[" in qt:
                 p = self.path_of(a)
-                out.append((nm, None, self.canon(p) if p else None))
+                p = self.canon(p) if p else None
+                snap = None
+                if p is not None:
+                    # values of the members a depth function may be bound to, AT THE TIME OF THE CALL
+                    snap = {sfx: self.cur(p + sfx) for sfx in set(QR_BIND.values()) | set(EC_BIND.values())}
+                out.append((nm, None, p, snap))
             else:
-                out.append((nm, self.try_size(a), None))
+                out.append((nm, self.try_size(a), None, None))
         return out
 
     # ------------------------------------------------------------ result
@@ -679,18 +686,18 @@ def bind_deep_params(tree, f, deepfn, callargs=None, owner=None):
                     if "ec_o" in qqt and p in EC_BIND:
                         val = ("var", q + EC_BIND[p]); break
         else:
-            for (q, ir, path) in callargs:
+            for (q, ir, path, snap) in callargs:
                 if q == p and path is None:
                     val = ir
                     if val is None:
                         raise Unhandled("argument %s of %s is not a tracked size" % (p, f.name))
                     break
             if val is None:
-                for (q, ir, path), (_, qqt, qdq) in zip(callargs, f.params):
+                for (q, ir, path, snap), (_, qqt, qdq) in zip(callargs, f.params):
                     if path is not None and "qr_o" in qqt and p in QR_BIND:
-                        val = ("var", path + QR_BIND[p]); break
+                        val = snap[QR_BIND[p]]; break
                     if path is not None and "ec_o" in qqt and p in EC_BIND:
-                        val = ("var", path + EC_BIND[p]); break
+                        val = snap[EC_BIND[p]]; break
         if val is None:
             raise Unhandled("cannot bind parameter %s of %s" % (p, deepfn.name))
         out.append(val)
@@ -750,7 +757,7 @@ class Obligations:
     def callee_depth(self, u, ev):
         base, off, cal, cargs, flag = ev
         if cal[0] == "member":
-            return ("var", cal[1] + "->deep")
+            return cal[3]
         g = self.tree.funcs[cal[1]]
         d = self.deep_of(g)
         if d is None:
@@ -775,6 +782,13 @@ class Obligations:
                 raise Unhandled("variadic callee " + g.name)
             return ("vcall", d.key, args, va)
         return ("call", d.key, bind_deep_params(self.tree, g, d, cargs))
+
+    @staticmethod
+    def resolve_arg(u, a):
+        """members bound through an object (X->n, X->f->deep ...) take their current symbolic value"""
+        if a is not None and a[0] == "var" and ("->" in a[1] or "." in a[1]):
+            return u.cur(a[1])
+        return a
 
     def obligations_of(self, u):
         fn = u.fn
@@ -921,7 +935,7 @@ class Obligations:
         wsz = self.tree.sizeof(fn.file, "word")
         for v in sorted(vs):
             if v.endswith("->no") and (v[:-4] + "->n") in vs and wsz:
-                inv.append((v[:-4] + "->n", ("bin", "/", ("bin", "+", ("var", v), lit(wsz - 1)), lit(wsz))))
+                inv.append((v[:-4] + "->n", _wofo(("var", v), wsz)))
         fps = {}
 
         def find_fp(e):
@@ -951,7 +965,7 @@ def closure(pure, names):
     return [k for k in sorted(seen) if k not in xd.RECURSION_MEASURES]
 
 
-OPAQUE = {"gfpCreate_deep", "gfpCreate_keep", "zmCreate_deep", "zmCreate_keep", "zmMontCreate_deep", "zmMontCreate_keep",
+OPAQUE = {"ecNAFWidth", "qrCalcSlideWidth", "gfpCreate_deep", "gfpCreate_keep", "zmCreate_deep", "zmCreate_keep", "zmMontCreate_deep", "zmMontCreate_keep",
           "gf2Create_deep", "gf2Create_keep", "ecpCreateJ_deep", "ecpCreateJ_keep", "ec2CreateLD_deep", "ec2CreateLD_keep"}
 
 
@@ -959,19 +973,29 @@ def thm_name(key):
     return "use_le_deep_" + lean_fn(key)
 
 
-def gen_lean(ob, ns, skip=()):
-    """Lean file with one theorem per function: the conjunction of its obligations.
-    `skip`: keys of functions whose obligations are known not to hold / not to be provable
-    (emitted as comments, reported as open)."""
-    out = ["/- GENERATED by xlate/x_c07_use.py from /repo/src (word configuration %s) — do not edit.\n"
+NPARTS = 8
+# obligations whose arithmetic is large (many-way max on both sides): bigger heartbeat budget; they are
+# spread over different part files so that lake checks them in parallel
+HEAVY = ["bign96ParamsVal", "bignParamsVal", "bignIdSign2", "bignSign2", "pfokParamsVal", "g12sEcCreate", "bignIdVerify", "bignKeyWrap"]
+
+
+def gen_lean_parts(ob, ns, skip=()):
+    """-> ({file suffix: text}, proved keys, open keys).  Part files `C07Use<ns>_<i>.lean` hold one theorem per
+    function (the conjunction of its obligations); `C07Use<ns>.lean` imports all parts.
+    `skip`: keys of functions whose obligations are not provable today (emitted as comments, reported open)."""
+    hdr = ("/- GENERATED by xlate/x_c07_use.py from /repo/src (word configuration %s, part %%d of %d) — do not edit.\n"
            "   For every function that carves a scratch stack or a blob: offset of every call that\n"
-           "   receives the rest of the area + the callee's DECLARED depth <= the declared depth. -/" % ns,
-           "import Bee2V.Gen.C07Deep%s\nimport Bee2V.C07.Tactic\n" % ns,
-           "namespace Bee2V.Gen.C07.%s.Use\nopen Bee2V.Gen.C07.%s\n" % (ns, ns)]
+           "   receives the rest of the area + the callee's DECLARED depth <= the declared depth;\n"
+           "   for object constructors additionally their post-condition (goals `post`). -/\n"
+           "import Bee2V.Gen.C07Deep%s\nimport Bee2V.C07.Tactic\n\n"
+           "namespace Bee2V.Gen.C07.%s.Use\nopen Bee2V.Gen.C07.%s\n" % (ns, NPARTS, ns, ns, ns))
+    parts = [[] for _ in range(NPARTS)]
     names, opened = [], []
-    for k, r in sorted(ob.results.items()):
-        if not r["goals"]:
-            continue
+    keys = [k for k, r in sorted(ob.results.items()) if r["goals"]]
+    heavy = [k for k in HEAVY if k in keys]
+    order = heavy + [k for k in keys if k not in heavy]
+    for idx, k in enumerate(order):
+        r = ob.results[k]
         vs = " ".join("(%s : %s)" % (lname(v), " → ".join(["Nat"] * (r["fps"].get(v, 0) + 1))) for v in r["vars"])
         hy = " ".join("(h_%d : %s ≤ %s)" % (i, lname(v), to_lean(b)) for i, (v, b) in enumerate(r["hyps"]))
         hy += " " + " ".join("(hinv_%d : %s = %s)" % (i, lname(v), to_lean(b)) for i, (v, b) in enumerate(r["inv"]))
@@ -987,16 +1011,35 @@ def gen_lean(ob, ns, skip=()):
         midl = [lean_fn(c) for c in closure(midp, [c for c in allc if c not in OPAQUE])]
         doc = "/-- %s : %s\n%s -/" % (r["file"], k, "\n".join("  [%s]" % lab for lab, _, _ in r["goals"]))
         stmt = " ∧\n    ".join(goals)
-        text = "%s\ntheorem %s %s %s :\n    %s := by\n  c07_use [%s] [%s] [%s]\n" % (
-            doc, thm_name(k), vs, hy, stmt, ", ".join(topl), ", ".join(midl), ", ".join(alll))
+        opt = "set_option maxHeartbeats 1600000 in\n" if k in heavy else ""
+        text = "%s%s\ntheorem %s %s %s :\n    %s := by\n  c07_use [%s] [%s] [%s]\n" % (
+            opt, doc, thm_name(k), vs, hy, stmt, ", ".join(topl), ", ".join(midl), ", ".join(alll))
         if k in skip:
-            out.append("/- OPEN (not a theorem): %s\n%s\n-/\n" % (skip[k], text.replace("/-", "/ -").replace("-/", "- /").replace("\ntheorem ", "\nopen_obligation ")))
+            parts[idx % NPARTS].append("/- OPEN (not a theorem): %s\n%s\n-/\n" % (
+                skip[k], text.replace("/-", "/ -").replace("-/", "- /").replace("\ntheorem ", "\nopen_obligation ").replace("set_option", "-- set_option")))
             opened.append(k)
         else:
-            out.append(text)
+            parts[idx % NPARTS].append(text)
             names.append(k)
-    out.append("end Bee2V.Gen.C07.%s.Use\n" % ns)
-    return "\n".join(out), names, opened
+    files = {}
+    for i, p in enumerate(parts):
+        files["_%d" % i] = (hdr % (i + 1)) + "\n" + "\n".join(p) + "\nend Bee2V.Gen.C07.%s.Use\n" % ns
+    files[""] = ("/- GENERATED by xlate/x_c07_use.py — do not edit.  All parts of the obligations for %s. -/\n" % ns +
+                 "".join("import Bee2V.Gen.C07Use%s_%d\n" % (ns, i) for i in range(NPARTS)))
+    return files, sorted(names), sorted(opened)
+
+
+def gen_lean(ob, ns, skip=()):
+    """single-file variant (development)"""
+    files, names, opened = gen_lean_parts(ob, ns, skip)
+    body = []
+    for i in range(NPARTS):
+        t = files["_%d" % i]
+        t = t[t.index("open Bee2V.Gen.C07.%s\n" % ns) + len("open Bee2V.Gen.C07.%s\n" % ns):]
+        t = t[:t.rindex("end Bee2V.Gen.C07")]
+        body.append(t)
+    head = "import Bee2V.Gen.C07Deep%s\nimport Bee2V.C07.Tactic\n\nnamespace Bee2V.Gen.C07.%s.Use\nopen Bee2V.Gen.C07.%s\n" % (ns, ns, ns)
+    return head + "\n".join(body) + "\nend Bee2V.Gen.C07.%s.Use\n" % ns, names, opened
 
 
 def main():
